@@ -106,8 +106,13 @@ Definition add_finished (s : state) (r : req) : state :=
 Definition set_outq (s : state) (q : list Z) : state :=
   mkState (cfgN s) (cfgP s) (cfgT s) (pool s) (inflight s) (finished s) (closed s) (now s) (events s) (handled s) q (next_rid s).
 
+(* start, start+1, ..., start+len-1 *)
+Fixpoint zseq (start : Z) (len : nat) : list Z :=
+  match len with O => [] | S l => start :: zseq (start + 1) l end.
+
+(* newInFlightRequestsHandler: the pool is filled with 1..maxInFlight *)
 Definition init (n p t : Z) : state :=
-  mkState n p t (map Z.of_nat (seq 1 (Z.to_nat n))) [] [] false 0 [] [] [] 0.
+  mkState n p t (zseq 1 (Z.to_nat n)) [] [] false 0 [] [] [] 0.
 
 (* ---- inFlightRequest ---- *)
 (* inFlightRequest.close(err): guarded by !r.done; cancels the request context (all timers), closes the channel *)
